@@ -5,6 +5,8 @@
 package accept
 
 import (
+	"fmt"
+	"math"
 	"math/big"
 	"strings"
 )
@@ -740,4 +742,56 @@ func reductions(h Header) []Header {
 		}
 	}
 	return out
+}
+
+// CheckParse judges the (value, q) list a parser under test returned for the text whose strict
+// parse is ranges: one entry per range in order with the range's type; q == 0 exactly for quality 0;
+// finite, non-negative, and ordered/equal as the exact decimals are.
+func CheckParse(values []string, q []float64, ranges []Range) (mode, detail string) {
+	if len(values) != len(ranges) {
+		return "parse-wrong-ranges", fmt.Sprintf("ParseAccept returned %d specs %v for %d ranges", len(values), values, len(ranges))
+	}
+	for i := range ranges {
+		if values[i] != ranges[i].Type {
+			return "parse-wrong-ranges", fmt.Sprintf("spec #%d is %q, range #%d is %q", i, values[i], i, ranges[i].Type)
+		}
+	}
+	qs := make([]*big.Rat, len(ranges))
+	for i := range ranges {
+		qs[i] = ranges[i].Q()
+		f := q[i]
+		if math.IsNaN(f) || math.IsInf(f, 0) {
+			return "parse-wrong-q", fmt.Sprintf("range #%d %q: q %q parsed as %v", i, ranges[i].Type, ranges[i].QText, f)
+		}
+		if (qs[i].Sign() == 0) != (f == 0) {
+			return "parse-wrong-q", fmt.Sprintf("range #%d %q: q text %q denotes %s but parsed as %v (zero-ness differs)", i, ranges[i].Type, ranges[i].QText, qs[i].FloatString(8), f)
+		}
+		if f < 0 {
+			return "parse-wrong-q", fmt.Sprintf("range #%d %q: q text %q parsed as negative %v", i, ranges[i].Type, ranges[i].QText, f)
+		}
+	}
+	for i := range ranges {
+		for j := i + 1; j < len(ranges); j++ {
+			want := qs[i].Cmp(qs[j])
+			got := 0
+			switch {
+			case q[i] < q[j]:
+				got = -1
+			case q[i] > q[j]:
+				got = 1
+			}
+			if want != got {
+				return "parse-wrong-q", fmt.Sprintf("ranges #%d (q=%s -> %v) and #%d (q=%s -> %v): exact order %d, parsed order %d",
+					i, qtext(ranges[i]), q[i], j, qtext(ranges[j]), q[j], want, got)
+			}
+		}
+	}
+	return "", ""
+}
+
+func qtext(rg Range) string {
+	if !rg.HasQ {
+		return "(none)"
+	}
+	return rg.QText
 }
